@@ -41,6 +41,9 @@ pub fn check_status(b: &Board, p: &RPos, src: &str, rep: &mut Report) {
 
 struct C04Mon {}
 impl NodeMon for C04Mon {
+    fn through_rights_divergence(&self) -> bool {
+        true
+    }
     fn node(&mut self, n: &Node, rep: &mut Report, rng: &mut Rng) {
         if n.diverged {
             return;
